@@ -124,7 +124,7 @@ func fieldWrites1(fn *ssa.Function, owner, name string) []ssa.Instruction {
 								out = append(out, w)
 							}
 						case *ssa.Call:
-							if CalleeName(w.Common()) == "builtin:delete" && w.Common().Args[0] == ssa.Value(u) {
+							if CalleeName(w.Common()) == "builtin:delete" && ArgK(w, 0) == ssa.Value(u) {
 								out = append(out, w)
 							}
 						}
@@ -392,7 +392,7 @@ func runC14(c *Ctx) {
 			n := 0
 			for _, s := range CallsIn(body, "(*txpool.addressTransactions).Promote") {
 				n++
-				arg := bf.Term(s.Call.Common().Args[1])
+				arg := bf.Term(ArgK(s.Call, 1))
 				verd := IsResult("(*txpool.TransactionPool).verifyTransactions", 0)
 				okEdge := false
 				for _, f := range bf.FactsAt(s.Call.Block()) {
